@@ -1550,7 +1550,7 @@ void OPNMIDIplay::killOrEvacuate(size_t from_channel,
 
 void OPNMIDIplay::panic()
 {
-    for(uint8_t chan = 0; chan < m_midiChannels.size(); chan++)
+    for(size_t chan = 0; chan < m_midiChannels.size(); chan++)
     {
         for(uint8_t note = 0; note < 128; note++)
             noteOff(chan, note, true); // right now: don't wait for the minimal percussion note time
